@@ -1,13 +1,167 @@
-(* Props/C17.v -- property C17 (provisional instances on the generated layouts; the general theorems are being added) *)
-From Coq Require Import NArith List.
-From RP Require Import Gen.GenTables Model.Pgcopy Spec.SpecPgcopy.
+(* Props/C17.v -- property C17: the table files are well-formed PostgreSQL binary COPY streams whose
+   fields, in COPY-column order, carry the values written, and loading a saved table gives back the
+   same table (same keys, bit-identical values).
+   Statements use only Base/ Gen/ Model/ Spec/ definitions; proofs live in Proofs/. *)
+From Coq Require Import NArith ZArith List Bool.
+From RP Require Import Base.Bits Gen.GenTables Model.Codec Model.Pgcopy.
+From RP Require Import Spec.SpecCodec Spec.SpecPgcopy Spec.SpecTables.
+From RP Require Proofs.C17_Bytes Proofs.C17_Layout Proofs.C17_Pg Proofs.C17_Tables Proofs.C17_Examples.
 Import ListNotations.
 Open Scope N_scope.
-Definition ex_metric : list kv := [([5], [1065353216]); ([9], [3212836864])].
-Theorem C17_metric_instance :
-  load_metric (save_metric ex_metric) = LOk ex_metric /\
-  forallb (fun n => match load_metric (firstn n (save_metric ex_metric)) with LError => true | LOk _ => false end)
-          (seq 0 (length (save_metric ex_metric))) = true /\
-  columns_eqb PROFILE_WRITER_FIELDS PROFILE_COPY_COLUMNS = true.
-Proof. vm_compute. repeat split; reflexivity. Qed.
-Print Assumptions C17_metric_instance.
+
+(* ---------- 1. save / load round trip ---------- *)
+Theorem C17_roundtrip_metric : forall t, wf_metric_table t -> sorted_strict t ->
+  load_metric (save_metric t) = LOk t.
+Proof. exact C17_Tables.roundtrip_metric. Qed.
+Print Assumptions C17_roundtrip_metric.
+Example C17_metric_hyp :
+  wf_metric_table C17_Examples.ex_metric /\ sorted_strict C17_Examples.ex_metric.
+Proof. exact (conj C17_Examples.ex_metric_wf C17_Examples.ex_metric_sorted). Qed.
+Example C17_metric_bytes : save_metric C17_Examples.ex_metric =
+  [80; 71; 67; 79; 80; 89; 10; 255; 13; 10; 0; 0; 0; 0; 0; 0; 0; 0; 0;
+   0; 2; 0; 0; 0; 8; 0; 0; 0; 0; 0; 0; 0; 5; 0; 0; 0; 4; 63; 128; 0; 0;
+   0; 2; 0; 0; 0; 8; 128; 0; 0; 0; 0; 0; 0; 7; 0; 0; 0; 4; 191; 128; 0; 0;
+   255; 255].
+Proof. exact C17_Examples.ex_metric_bytes. Qed.
+
+Theorem C17_roundtrip_lookup : forall t, wf_lookup_table t -> sorted_strict t ->
+  load_lookup (save_lookup t) = LOk t.
+Proof. exact C17_Tables.roundtrip_lookup. Qed.
+Print Assumptions C17_roundtrip_lookup.
+Example C17_lookup_hyp :
+  wf_lookup_table C17_Examples.ex_lookup /\ sorted_strict C17_Examples.ex_lookup.
+Proof. exact (conj C17_Examples.ex_lookup_wf C17_Examples.ex_lookup_sorted). Qed.
+Example C17_lookup_bytes : save_lookup C17_Examples.ex_lookup =
+  [80; 71; 67; 79; 80; 89; 10; 255; 13; 10; 0; 0; 0; 0; 0; 0; 0; 0; 0;
+   0; 2; 0; 0; 0; 8; 0; 2; 3; 4; 50; 51; 1; 52; 0; 0; 0; 8; 2; 230; 69; 58; 195; 116; 208; 17;
+   0; 2; 0; 0; 0; 8; 0; 0; 0; 0; 0; 0; 51; 52; 0; 0; 0; 8; 0; 0; 0; 0; 0; 0; 0; 0;
+   255; 255].
+Proof. exact C17_Examples.ex_lookup_bytes. Qed.
+
+Theorem C17_roundtrip_profile : forall t, wf_profile_table t -> sorted_strict t ->
+  load_profile (save_profile t) = LOk t.
+Proof. exact C17_Tables.roundtrip_profile. Qed.
+Print Assumptions C17_roundtrip_profile.
+Example C17_profile_hyp :
+  wf_profile_table C17_Examples.ex_profile /\ sorted_strict C17_Examples.ex_profile.
+Proof. exact (conj C17_Examples.ex_profile_wf C17_Examples.ex_profile_sorted). Qed.
+Example C17_profile_bytes : save_profile C17_Examples.ex_profile =
+  [80; 71; 67; 79; 80; 89; 10; 255; 13; 10; 0; 0; 0; 0; 0; 0; 0; 0; 0;
+   0; 6; 0; 0; 0; 8; 0; 0; 0; 0; 0; 0; 0; 33; 0; 0; 0; 8; 1; 176; 248; 148; 36; 53; 176; 5;
+         0; 0; 0; 8; 0; 0; 0; 0; 0; 0; 6; 66; 0; 0; 0; 8; 0; 0; 0; 0; 0; 0; 0; 3;
+         0; 0; 0; 4; 63; 128; 0; 0; 0; 0; 0; 4; 63; 0; 0; 0;
+   0; 6; 0; 0; 0; 8; 0; 0; 0; 0; 0; 0; 0; 33; 0; 0; 0; 8; 1; 176; 248; 148; 36; 53; 176; 5;
+         0; 0; 0; 8; 0; 0; 0; 0; 0; 0; 6; 66; 0; 0; 0; 8; 0; 0; 0; 0; 0; 0; 16; 12;
+         0; 0; 0; 4; 191; 128; 0; 0; 0; 0; 0; 4; 62; 128; 0; 0;
+   255; 255].
+Proof. exact C17_Examples.ex_profile_bytes. Qed.
+
+(* which edges satisfy the side condition of wf_profile_entry *)
+Theorem C17_wf_edge_plain :
+  wf_edge EDraw /\ wf_edge EFold /\ wf_edge ECheck /\ wf_edge ECall /\ wf_edge EShove.
+Proof. exact C17_Tables.wf_edge_plain. Qed.
+Print Assumptions C17_wf_edge_plain.
+Theorem C17_wf_edge_raise : forall n d, (0 <= n <= 255)%Z -> (0 <= d <= 255)%Z -> wf_edge (ERaise n d).
+Proof. exact C17_Tables.wf_edge_raise. Qed.
+Print Assumptions C17_wf_edge_raise.
+Theorem C17_wf_edge_all_edges : forall e, In e all_edges -> wf_edge e.
+Proof. exact C17_Tables.wf_edge_all_edges. Qed.
+Print Assumptions C17_wf_edge_all_edges.
+
+(* ---------- 2. the file is a well-formed binary COPY stream with the declared column widths ---------- *)
+Theorem C17_wellformed_metric : forall t, wf_metric_table t ->
+  exists tuples, pg_parse (save_metric t) = Some tuples /\ length tuples = length t /\
+                 Forall (fun row => typed_ok METRIC_COLUMN_TYPES row = true) tuples.
+Proof. exact C17_Tables.wellformed_metric. Qed.
+Print Assumptions C17_wellformed_metric.
+
+Theorem C17_wellformed_lookup : forall t, wf_lookup_table t ->
+  exists tuples, pg_parse (save_lookup t) = Some tuples /\ length tuples = length t /\
+                 Forall (fun row => typed_ok LOOKUP_COLUMN_TYPES row = true) tuples.
+Proof. exact C17_Tables.wellformed_lookup. Qed.
+Print Assumptions C17_wellformed_lookup.
+
+Theorem C17_wellformed_profile : forall t, wf_profile_table t ->
+  exists tuples, pg_parse (save_profile t) = Some tuples /\ length tuples = length t /\
+                 Forall (fun row => typed_ok PROFILE_COLUMN_TYPES row = true) tuples.
+Proof. exact C17_Tables.wellformed_profile. Qed.
+Print Assumptions C17_wellformed_profile.
+
+Theorem C17_wellformed_transitions : forall rows, Forall wf_transitions_row rows ->
+  exists tuples, pg_parse (save_bytes transitions_layout rows) = Some tuples /\
+                 length tuples = length rows /\
+                 Forall (fun row => typed_ok TRANSITIONS_COLUMN_TYPES row = true) tuples.
+Proof. exact C17_Tables.wellformed_transitions. Qed.
+Print Assumptions C17_wellformed_transitions.
+Example C17_transitions_hyp : Forall wf_transitions_row C17_Examples.ex_transitions.
+Proof. exact C17_Examples.ex_transitions_wf. Qed.
+
+(* ---------- 3. the values are written in the order of the COPY column list ---------- *)
+Theorem C17_columns :
+  columns_eqb PROFILE_WRITER_FIELDS PROFILE_COPY_COLUMNS = true /\
+  columns_eqb METRIC_WRITER_FIELDS METRIC_COPY_COLUMNS = true /\
+  columns_eqb LOOKUP_WRITER_FIELDS LOOKUP_COPY_COLUMNS = true /\
+  columns_eqb TRANSITIONS_WRITER_FIELDS TRANSITIONS_COPY_COLUMNS = true.
+Proof. exact C17_Pg.columns_all. Qed.
+Print Assumptions C17_columns.
+
+(* the boolean test is equality of the column lists *)
+Theorem C17_columns_eqb_sound : forall a b, columns_eqb a b = true -> a = b.
+Proof. exact C17_Pg.columns_eqb_eq. Qed.
+Print Assumptions C17_columns_eqb_sound.
+
+(* ---------- 4. field i of tuple k is the big-endian encoding of component i of X_encode (entry k) ---------- *)
+Theorem C17_field_values_metric : forall t tuples, wf_metric_table t ->
+  pg_parse (save_metric t) = Some tuples ->
+  forall k i e row, nth_error t k = Some e -> nth_error tuples k = Some row ->
+    (i < length METRIC_COPY_COLUMNS)%nat ->
+    exists w v, nth_error METRIC_WRITER_WIDTHS i = Some w /\ nth_error (metric_encode e) i = Some v /\
+                nth_error row i = Some (w, be w v) /\ be_value (be w v) = v.
+Proof. exact C17_Tables.field_values_metric. Qed.
+Print Assumptions C17_field_values_metric.
+
+Theorem C17_field_values_lookup : forall t tuples, wf_lookup_table t ->
+  pg_parse (save_lookup t) = Some tuples ->
+  forall k i e row, nth_error t k = Some e -> nth_error tuples k = Some row ->
+    (i < length LOOKUP_COPY_COLUMNS)%nat ->
+    exists w v, nth_error LOOKUP_WRITER_WIDTHS i = Some w /\ nth_error (lookup_encode e) i = Some v /\
+                nth_error row i = Some (w, be w v) /\ be_value (be w v) = v.
+Proof. exact C17_Tables.field_values_lookup. Qed.
+Print Assumptions C17_field_values_lookup.
+
+Theorem C17_field_values_profile : forall t tuples, wf_profile_table t ->
+  pg_parse (save_profile t) = Some tuples ->
+  forall k i e row, nth_error t k = Some e -> nth_error tuples k = Some row ->
+    (i < length PROFILE_COPY_COLUMNS)%nat ->
+    exists w v, nth_error PROFILE_WRITER_WIDTHS i = Some w /\ nth_error (profile_encode e) i = Some v /\
+                nth_error row i = Some (w, be w v) /\ be_value (be w v) = v.
+Proof. exact C17_Tables.field_values_profile. Qed.
+Print Assumptions C17_field_values_profile.
+
+(* the components of profile_encode, by name: past, present, future, edge code, regret, policy *)
+Theorem C17_profile_encode : forall e, wf_profile_entry e ->
+  exists past ar present future ed r p,
+    e = ([past; ar; present; future] ++ edge_key ed, [r; p]) /\
+    profile_encode e = [past; present; future; edge_to_u64 ed; r; p].
+Proof. exact C17_Tables.profile_encode_wf. Qed.
+Print Assumptions C17_profile_encode.
+
+(* ---------- generic form (any layout satisfying the side conditions) ---------- *)
+Theorem C17_layouts_ok :
+  layout_ok profile_layout /\ layout_ok metric_layout /\ layout_ok lookup_layout /\
+  layout_ok transitions_layout /\
+  l_strict profile_layout = true /\ l_strict metric_layout = true /\ l_strict lookup_layout = true /\
+  l_strict transitions_layout = true.
+Proof.
+  exact (conj C17_Layout.profile_layout_ok (conj C17_Layout.metric_layout_ok
+        (conj C17_Layout.lookup_layout_ok (conj C17_Layout.transitions_layout_ok
+        (conj C17_Layout.profile_strict (conj C17_Layout.metric_strict
+        (conj C17_Layout.lookup_strict C17_Layout.transitions_strict))))))).
+Qed.
+Print Assumptions C17_layouts_ok.
+
+Theorem C17_load_rows_save : forall L rows, layout_ok L ->
+  Forall (fun r => Forall2 (fun w v => v < 256 ^ w) (l_wwidths L) r) rows ->
+  load_rows L (save_bytes L rows) = LOk rows.
+Proof. exact C17_Layout.load_rows_save. Qed.
+Print Assumptions C17_load_rows_save.
